@@ -1,6 +1,7 @@
 package main
 
 import (
+	"regexp"
 	"fmt"
 	"go/ast"
 	"go/parser"
@@ -92,8 +93,50 @@ func checkClause(prog *Program, fi *FuncInfo, cl *Clause, pos token.Pos, ghostTy
 	info := &types.Info{Types: map[ast.Expr]types.TypeAndValue{}, Defs: map[*ast.Ident]types.Object{}, Uses: map[*ast.Ident]types.Object{},
 		Selections: map[*ast.SelectorExpr]*types.Selection{}, Implicits: map[ast.Node]types.Object{}, Instances: map[*ast.Ident]types.Instance{}}
 	if err := types.CheckExpr(prog.Fset, fi.Pkg.Types, pos, expr, info); err != nil {
-		cc.err = fmt.Errorf("type-check: %v in %q", err, src)
-		return cc
+		// rename recovery: a clause names a local variable (or a named result) that no longer exists. If the delivered
+		// tree had that variable and the current function has an unmatched variable of the same type in the same
+		// relative order, the clause is re-stated over the renamed variable (and then has to be PROVED like any other:
+		// a wrong guess can only make the proof fail).
+		for tries := 0; err != nil && tries < 12; tries++ {
+			m := undefinedRe.FindStringSubmatch(err.Error())
+			if m == nil {
+				break
+			}
+			to, ok := renameFor(prog, fi, m[1])
+			if !ok {
+				break
+			}
+			body = replaceIdent(body, m[1], to)
+			// the renamed clause may now mention a ghost name (result, result0 ...) it did not mention before
+			used2 := identsIn(body)
+			params = nil
+			var names2 []string
+			for n := range ghostTypes {
+				if used2[n] {
+					names2 = append(names2, n)
+				}
+			}
+			sort.Strings(names2)
+			for _, n := range names2 {
+				params = append(params, n+" "+types.TypeString(ghostTypes[n], q))
+			}
+			src = fmt.Sprintf("func(%s) %s { return %s }", strings.Join(params, ", "), resType, body)
+			var perr error
+			expr, perr = parser.ParseExprFrom(token.NewFileSet(), "clause", src, 0)
+			if perr != nil {
+				break
+			}
+			info = &types.Info{Types: map[ast.Expr]types.TypeAndValue{}, Defs: map[*ast.Ident]types.Object{}, Uses: map[*ast.Ident]types.Object{},
+				Selections: map[*ast.SelectorExpr]*types.Selection{}, Implicits: map[ast.Node]types.Object{}, Instances: map[*ast.Ident]types.Instance{}}
+			err = types.CheckExpr(prog.Fset, fi.Pkg.Types, pos, expr, info)
+			if err == nil {
+				renameNotes[fi.Key+": clause re-stated after a rename: "+m[1]+" -> "+to] = true
+			}
+		}
+		if err != nil {
+			cc.err = fmt.Errorf("type-check: %v in %q", err, src)
+			return cc
+		}
 	}
 	lit := expr.(*ast.FuncLit)
 	for _, f := range lit.Type.Params.List {
@@ -104,6 +147,218 @@ func checkClause(prog *Program, fi *FuncInfo, cl *Clause, pos token.Pos, ghostTy
 	cc.expr = lit.Body.List[0].(*ast.ReturnStmt).Results[0]
 	cc.info = info
 	return cc
+}
+
+var undefinedRe = regexp.MustCompile(`undefined: ([A-Za-z_][A-Za-z0-9_]*)`)
+
+// renameNotes collects the renames applied (reported in evidence notes).
+var renameNotes = map[string]bool{}
+
+// localInfo: one variable of a function as recorded in the baseline (declaration order).
+type localInfo struct {
+	Name string `json:"n"`
+	Type string `json:"t"`
+	Role string `json:"r"` // param | result<i> | local
+}
+
+// baselineLocals: variables of every function under contract on the delivered tree (from /verif/baseline).
+var baselineLocals map[string][]localInfo
+
+// localsOf lists the variables a function declares, in source order.
+func localsOf(fi *FuncInfo) []localInfo {
+	if fi == nil || fi.Decl == nil {
+		return nil
+	}
+	info := fi.Pkg.TypesInfo
+	q := func(p *types.Package) string { return p.Name() }
+	var out []localInfo
+	seen := map[types.Object]bool{}
+	add := func(id *ast.Ident, role string) {
+		if id == nil || id.Name == "_" {
+			return
+		}
+		if v, ok := info.Defs[id].(*types.Var); ok && !v.IsField() && !seen[v] {
+			seen[v] = true
+			out = append(out, localInfo{Name: id.Name, Type: types.TypeString(v.Type(), q), Role: role})
+		}
+	}
+	fields := func(fl *ast.FieldList, role string) {
+		if fl == nil {
+			return
+		}
+		i := 0
+		for _, f := range fl.List {
+			for _, n := range f.Names {
+				r := role
+				if role == "result" {
+					r = fmt.Sprintf("result%d", i)
+				}
+				add(n, r)
+				i++
+			}
+			if len(f.Names) == 0 {
+				i++
+			}
+		}
+	}
+	fields(fi.Decl.Recv, "param")
+	fields(fi.Decl.Type.Params, "param")
+	fields(fi.Decl.Type.Results, "result")
+	if fi.Decl.Body != nil {
+		ast.Inspect(fi.Decl.Body, func(n ast.Node) bool {
+			if id, ok := n.(*ast.Ident); ok {
+				add(id, "local")
+			}
+			return true
+		})
+	}
+	return out
+}
+
+var renameCache = map[string]map[string]string{}
+
+// renameFor: what the variable `old` of the delivered tree is called in the current function, if that can be told.
+func renameFor(prog *Program, fi *FuncInfo, old string) (string, bool) {
+	m, ok := renameCache[fi.Key]
+	if !ok {
+		m = map[string]string{}
+		renameCache[fi.Key] = m
+		was := baselineLocals[fi.Key]
+		now := localsOf(fi)
+		nowNames := map[string]bool{}
+		for _, l := range now {
+			nowNames[l.Name] = true
+		}
+		wasNames := map[string]bool{}
+		for _, l := range was {
+			wasNames[l.Name] = true
+		}
+		nres := 0
+		if fi.Obj != nil {
+			nres = fi.Obj.Type().(*types.Signature).Results().Len()
+		}
+		// unmatched variables, grouped by type, paired in declaration order
+		goneBy := map[string][]localInfo{}
+		newBy := map[string][]localInfo{}
+		for _, l := range was {
+			if !nowNames[l.Name] {
+				goneBy[l.Type] = append(goneBy[l.Type], l)
+			}
+		}
+		for _, l := range now {
+			if !wasNames[l.Name] {
+				newBy[l.Type] = append(newBy[l.Type], l)
+			}
+		}
+		for t, gone := range goneBy {
+			fresh := append([]localInfo(nil), newBy[t]...)
+			var rest []localInfo
+			for _, g := range gone {
+				if strings.HasPrefix(g.Role, "result") {
+					// a named result that is gone: the ghost names result / result<i> denote the same value
+					if nres == 1 {
+						m[g.Name] = "result"
+					} else {
+						m[g.Name] = g.Role
+					}
+					continue
+				}
+				rest = append(rest, g)
+			}
+			// pair by name similarity first (longest common substring, case-insensitive), then by declaration order
+			for len(rest) > 0 && len(fresh) > 0 {
+				bi, bj, best := -1, -1, 1
+				for i, g := range rest {
+					for j, f := range fresh {
+						if sc := commonSubstr(strings.ToLower(g.Name), strings.ToLower(f.Name)); sc > best {
+							bi, bj, best = i, j, sc
+						}
+					}
+				}
+				if bi < 0 {
+					break
+				}
+				m[rest[bi].Name] = fresh[bj].Name
+				rest = append(rest[:bi], rest[bi+1:]...)
+				fresh = append(fresh[:bj], fresh[bj+1:]...)
+			}
+			for i, g := range rest {
+				if i < len(fresh) {
+					m[g.Name] = fresh[i].Name
+				}
+			}
+		}
+	}
+	to, ok := m[old]
+	return to, ok
+}
+
+// commonSubstr: length of the longest common substring of a and b.
+func commonSubstr(a, b string) int {
+	best := 0
+	for i := 0; i < len(a); i++ {
+		for j := 0; j < len(b); j++ {
+			k := 0
+			for i+k < len(a) && j+k < len(b) && a[i+k] == b[j+k] {
+				k++
+			}
+			if k > best {
+				best = k
+			}
+		}
+	}
+	return best
+}
+
+// replaceIdent replaces whole-identifier occurrences of from (not selector fields) in a Go expression text.
+func replaceIdent(src, from, to string) string {
+	var b strings.Builder
+	isId := func(c byte) bool { return c == '_' || c >= '0' && c <= '9' || c >= 'a' && c <= 'z' || c >= 'A' && c <= 'Z' }
+	i := 0
+	for i < len(src) {
+		c := src[i]
+		if c == '"' || c == '`' || c == '\'' {
+			// skip literals
+			j := i + 1
+			for j < len(src) && src[j] != c {
+				if src[j] == '\\' && c != '`' {
+					j++
+				}
+				j++
+			}
+			if j < len(src) {
+				j++
+			}
+			b.WriteString(src[i:j])
+			i = j
+			continue
+		}
+		if isId(c) && !(c >= '0' && c <= '9') {
+			j := i
+			for j < len(src) && isId(src[j]) {
+				j++
+			}
+			word := src[i:j]
+			prevDot := false
+			for k := i - 1; k >= 0; k-- {
+				if src[k] == ' ' {
+					continue
+				}
+				prevDot = src[k] == '.'
+				break
+			}
+			if word == from && !prevDot {
+				b.WriteString(to)
+			} else {
+				b.WriteString(word)
+			}
+			i = j
+			continue
+		}
+		b.WriteByte(c)
+		i++
+	}
+	return b.String()
 }
 
 func (fv *FuncVerifier) clausePos(cl *Clause) token.Pos {
@@ -616,11 +871,70 @@ func VerifyFunc(w *World, prog *Program, fi *FuncInfo) *FuncResult {
 
 var debugPanics = false
 
+// canonicalIndexLoop recognises `for i := 0; i < len(S); i++ { ... }` (S an identifier or a selector path) and
+// returns the index variable and S. Such a loop is the same iteration as `for i := range S` when the body neither
+// assigns i nor changes S (checked by the caller against the loop's write set).
+func canonicalIndexLoop(info *types.Info, f *ast.ForStmt) (types.Object, ast.Expr) {
+	as, ok := f.Init.(*ast.AssignStmt)
+	if !ok || as.Tok != token.DEFINE || len(as.Lhs) != 1 || len(as.Rhs) != 1 {
+		return nil, nil
+	}
+	id, ok := as.Lhs[0].(*ast.Ident)
+	if !ok {
+		return nil, nil
+	}
+	if lit, ok := as.Rhs[0].(*ast.BasicLit); !ok || lit.Value != "0" {
+		return nil, nil
+	}
+	iobj := info.Defs[id]
+	inc, ok := f.Post.(*ast.IncDecStmt)
+	if !ok || inc.Tok != token.INC {
+		return nil, nil
+	}
+	if pid, ok := inc.X.(*ast.Ident); !ok || info.ObjectOf(pid) != iobj {
+		return nil, nil
+	}
+	cond, ok := f.Cond.(*ast.BinaryExpr)
+	if !ok || cond.Op != token.LSS {
+		return nil, nil
+	}
+	if cid, ok := cond.X.(*ast.Ident); !ok || info.ObjectOf(cid) != iobj {
+		return nil, nil
+	}
+	call, ok := cond.Y.(*ast.CallExpr)
+	if !ok || len(call.Args) != 1 {
+		return nil, nil
+	}
+	if fn, ok := call.Fun.(*ast.Ident); !ok || fn.Name != "len" {
+		return nil, nil
+	}
+	switch sx := ast.Unparen(call.Args[0]).(type) {
+	case *ast.Ident:
+		return iobj, sx
+	case *ast.SelectorExpr:
+		return iobj, sx
+	}
+	return nil, nil
+}
+
 func (fv *FuncVerifier) prepareLoopGhostTypes() {
 	info := fv.info
 	for s, ord := range fv.loops {
 		fv.loopGhostTypes[fmt.Sprintf("it%d", ord)] = types.Typ[types.Int]
 		fv.loopGhostTypes[fmt.Sprintf("off%d", ord)] = types.Typ[types.Int]
+		if f, ok := s.(*ast.ForStmt); ok {
+			// canonical index loop `for i := 0; i < len(S); i++`: the same ghosts as `for i := range S`
+			if _, sx := canonicalIndexLoop(info, f); sx != nil {
+				if xt := info.TypeOf(sx); xt != nil {
+					switch u := xt.Underlying().(type) {
+					case *types.Slice:
+						fv.loopGhostTypes[fmt.Sprintf("xs%d", ord)] = xt
+					case *types.Array:
+						fv.loopGhostTypes[fmt.Sprintf("xs%d", ord)] = types.NewSlice(u.Elem())
+					}
+				}
+			}
+		}
 		if r, ok := s.(*ast.RangeStmt); ok {
 			xt := info.TypeOf(r.X)
 			if xt == nil {
